@@ -84,6 +84,8 @@ def sa(o, name, v):
         if loc not in t.first_old:
             t.first_old[loc] = ("attr", o, name, getattr(o, name, None), name in getattr(o, "__dict__", {}))
         t.log("W", loc, v, _site())
+        if isinstance(v, (dict, list, set, bytearray)):
+            t.shared.add(id(v))  # an object stored into shared memory is shared from now on
     setattr(o, name, v)
 
 
@@ -102,6 +104,8 @@ def si(o, i, v):
                 old, existed = None, False
             t.first_old[loc] = ("item", o, i, old, existed)
         t.log("W", loc, v, _site())
+        if isinstance(v, (dict, list, set, bytearray)):
+            t.shared.add(id(v))
     o[i] = v
 
 
